@@ -98,7 +98,9 @@ def _state(sym_enabled=True):
     d.signal._array = sym_array("signal", SHAPE)
     d.image._array = sym_array("image", SHAPE, kind="int", dtype="uint16")
     d.charge._array = sym_array("charge", SHAPE)
-    d._memory = {"trap": sym_array("mem", SHAPE), "counter": vx.integer("mem_counter")}
+    # models keep state in the memory the detector came with (filled in place, as the models do: never re-bound)
+    d._memory.clear()
+    d._memory.update({"trap": sym_array("mem", SHAPE), "counter": vx.integer("mem_counter")})
     d._persistence = Persistence(trap_time_constants=[1.0, 10.0], trap_proportions=[0.5, 0.5], geometry=SHAPE)
     d._persistence._trapped_charge_array = sym_array("trapped", (2,) + SHAPE) if hasattr(d._persistence, "_trapped_charge_array") else None
     if d._persistence._trapped_charge_array is None:
@@ -376,7 +378,8 @@ def replay(oid, kwargs, model, data):
     d.signal._array = np.full(SHAPE, 3.0)
     d.image._array = np.full(SHAPE, 4, dtype=np.uint16)
     d.charge._array = np.full(SHAPE, 5.0)
-    d._memory = {"trap": np.full(SHAPE, 6.0), "counter": 7}
+    d._memory.clear()
+    d._memory.update({"trap": np.full(SHAPE, 6.0), "counter": 7})
     d._persistence = Persistence(trap_time_constants=[1.0, 10.0], trap_proportions=[0.5, 0.5], geometry=SHAPE)
     d._persistence.trapped_charge_array = np.full((2,) + SHAPE, 8.0)
     pipe = DetectionPipeline(
@@ -478,6 +481,7 @@ def _replay_run_mutating(kwargs):
         pipe = DetectionPipeline(scene_generation=[ModelFunction(name="init", func="vxprobes.init_buckets")],
                                  photon_collection=[ModelFunction(func="vxprobes.probe", name="m1", arguments={"level": 0.1, "opt": [0.2], "cfg": {"a": 1}})])
         det = make_ccd(2, 2)
+        det._memory.clear()
         det._memory["counter"] = 0
         # the caller's detector already holds data (e.g. from an earlier exposure)
         det.photon.array = np.full((2, 2), 11.0)
